@@ -633,6 +633,13 @@ def check_C17():
     tlc_must_pass(dem, "ExtractFS.tla emitter (deep directory names)")
     rc4, rep4 = harness_run(vh, ["extract-replay", dem["out"], "@REPORT", car, "hamt=all"], timeout=3400)
     absorb(rep4, "deep_dirname")
+    # three entries of one name (directory / symlink / file), some with their block missing from the archive
+    smodel = run_tlc("MCExtractFS", "ExtractFS_same3_guardTRUE.cfg", timeout=1800)
+    tlc_must_pass(smodel, "ExtractFS.tla invariant Contained with three same-named entries")
+    sem = run_tlc("MCExtractFS", "ExtractFS_same3_emit.cfg", timeout=2400)
+    tlc_must_pass(sem, "ExtractFS.tla emitter (three same-named entries)")
+    rc5, rep5 = harness_run(vh, ["extract-replay", sem["out"], "@REPORT", car, "hamt=all"], timeout=3400)
+    absorb(rep5, "same_name_triples")
     rep["counters"]["file_root_states"] = fmodel["distinct"]
     cov = merge_cov(model, em, rep, {
         "file_roots": "archives of <= 3 top-level items over {file root (extracted as <out>/unknown), file/symlink/directory named 'unknown' or 'a'} x output directory {empty, 'unknown' a symlink "
